@@ -4,7 +4,7 @@
 EXTENDS EnumSpec, Json, FP
 CONSTANT ObsFile
 Obs == ndJsonDeserialize(ObsFile)
-P(r) == [kind |-> r.kind, tr |-> r.tr, same |-> r.same, src |-> r.src, tgt |-> r.tgt, map |-> r.map, unknown |-> r.unknown, rootErr |-> r.rootErr, pos |-> r.pos, enumOn |-> r.enumOn]
+P(r) == [kind |-> r.kind, tr |-> r.tr, tr2 |-> r.tr2, same |-> r.same, src |-> r.src, tgt |-> r.tgt, map |-> r.map, unknown |-> r.unknown, rootErr |-> r.rootErr, pos |-> r.pos, enumOn |-> r.enumOn]
 Cause(p) == IF ~p.enumOn THEN "enum-off" ELSE LET g == Gen(p) IN IF g.fail = "" THEN "model-accepts" ELSE g.fail
 \* C18: fmt is imported exactly when an @error / @panic action is emitted
 Rng(q) == {q[i] : i \in DOMAIN q}
